@@ -67,12 +67,18 @@ pub struct Sel {
     pub sanmany: bool,
     /// two pawns capturing onto one promotion square
     pub promo2: bool,
+    /// two enemy sliders behind each other on a king line + one own man: (max distance, wide)
+    pub battery: Option<(usize, bool)>,
     /// doubled pawns with two captures onto one file
     pub pawncap2: bool,
     /// three same pieces, one pinned
     pub sanpin: bool,
     /// all 65,536 values of each counter on a few positions
     pub clocks: bool,
+    /// valid positions among the dense boards (long FEN fields, up to 32 men)
+    pub dense: bool,
+    /// a piece without moves boxed in by own men + a second piece of its kind
+    pub boxed: bool,
     pub counters: bool,
     pub material: Option<Vec<u32>>,
     /// deep DFS without dedup from the first `n` seeds to the given depth
@@ -94,6 +100,8 @@ impl Sel {
                 promo2: true,
                 pawncap2: true,
                 occ: true,
+                battery: Some((7, true)),
+                boxed: true,
                 ..Default::default()
             }
         } else {
@@ -107,6 +115,8 @@ impl Sel {
                 pin2: Some(3),
                 occ: true,
                 promo2: true,
+                battery: Some((3, false)),
+                boxed: true,
                 ..Default::default()
             }
         }
@@ -191,6 +201,11 @@ pub fn run_universes(run: &mut Run, sel: &Sel, disagree_idx: usize, check: PosCh
             uni::occ(sh, &mut |p| visit(ctx, p, disagree_idx, check));
         });
     }
+    if let Some((n, wide)) = sel.battery {
+        run.par_shards(&format!("BATTERY (two enemy sliders in line with the king, distances <= {}, + one own man{})", n, if wide { ", all slider kinds" } else { "" }), uni::BATTERY_SHARDS, |ctx, sh| {
+            uni::battery(sh, n, wide, &mut |p| visit(ctx, p, disagree_idx, check));
+        });
+    }
     if sel.promo2 {
         run.par_shards("PROMO2 (two pawns capturing onto one promotion square, +- enemy slider)", uni::PROMO2_SHARDS, |ctx, sh| {
             uni::promo2(sh, &mut |p| visit(ctx, p, disagree_idx, check));
@@ -204,6 +219,17 @@ pub fn run_universes(run: &mut Run, sel: &Sel, disagree_idx: usize, check: PosCh
     if sel.sanpin {
         run.par_shards("SANPIN (three own pieces of one kind, one pinned)", uni::SANPIN_SHARDS, |ctx, sh| {
             uni::sanpin(sh, &mut |p| visit(ctx, p, disagree_idx, check));
+        });
+    }
+    if sel.boxed {
+        run.par_shards("BOXED (a piece boxed in by own men + a second piece of its kind anywhere)", uni::BOXED_SHARDS, |ctx, sh| {
+            uni::boxed(sh, &mut |p| visit(ctx, p, disagree_idx, check));
+        });
+    }
+    if sel.dense {
+        run.par_shards("DENSE (valid positions among 6^8 x 2 boards with dense rank patterns)", uni::DENSE_SHARDS, |ctx, sh| {
+            let cell = std::cell::RefCell::new(ctx);
+            uni::dense(sh, &mut |_| {}, &mut |p| visit(*cell.borrow_mut(), p, disagree_idx, check));
         });
     }
     if sel.clocks {
